@@ -1,12 +1,14 @@
 """C11 — constrained rewiring honours connectivity, lattice cost and forbidden cells."""
 import sys
 from common import *  # noqa
+sys.path.insert(0, os.path.join(VERIF, 'translate')); import cores  # noqa: E402
 import rewire_common as rc
 
 PID = 'C11'
 ROUTINES = ['randmio_dir_connected', 'randmio_und_connected', 'latmio_dir', 'latmio_und',
             'latmio_dir_connected', 'latmio_und_connected', 'partial_und']
 UND_CONN = ('randmio_und_connected', 'latmio_und_connected')
+LEAN_NMAX = 24     # larger cases are judged by the Python predicates only (the interpreted Lean driver is too slow there)
 
 
 # ---------------------------------------------------------------- independent oracles (on real outputs)
@@ -243,15 +245,171 @@ def extra_cases(rs, tier):
             if r == 'partial_und':
                 c['B'] = np.zeros_like(A).tolist()
             cases.append(c)
+    cases += round4_cases(rs, tier)
     # (d) storage axis: the same integer-valued matrices as bool / uint8 / int32 / int64 / float32 arrays, Fortran order, transposed views
     for c in cases:
-        if c.get('malformed') or c.get('no_retry'):
+        if c.get('malformed') or c.get('no_retry') or c.get('den'):
             continue
         u = rs.rand()
         if u < .3:
             c['dtype'] = rc.pick_dtype(rs, np.array(c['A']))
         elif u < .42:
             c['order'] = str(rs.choice(['F', 'T']))
+    return cases
+
+
+# ---------------------------------------------------------------- round 4: weight / D families, malformed shapes, size axis
+
+def weight_family(rs, A, und, fam):
+    """integer weights on the support of A and a power-of-two denominator: bct sees W/den (exact floats), the model the integers.
+    maxnorm: weights in (0,1] with maximum exactly 1.0; strong-weak: full-strength 1.0 links and tiny ones; unit-interval: maximum < 1"""
+    Ab = (np.asarray(A) != 0).astype(float); n = len(Ab)
+    if fam == 'maxnorm':
+        den = int(2 ** int(rs.choice([2, 3, 4, 10])))
+        W = rs.randint(1, den + 1, size=(n, n)).astype(float)
+    elif fam == 'strong-weak':
+        den = int(2 ** int(rs.choice([20, 30])))
+        W = np.where(rs.rand(n, n) < .5, den, rs.randint(1, 4, size=(n, n))).astype(float)
+    else:  # unit-interval, maximum below 1
+        den = int(2 ** int(rs.choice([4, 10])))
+        W = rs.randint(1, den, size=(n, n)).astype(float)
+    if und:
+        W = sym(W)
+    W = W * Ab
+    if fam in ('maxnorm', 'strong-weak') and W.max() != den:          # make the maximum exactly 1.0
+        i, j = [(i, j) for i in range(n) for j in range(n) if W[i, j] != 0][int(rs.randint(int((W != 0).sum())))]
+        W[i, j] = den
+        if und:
+            W[j, i] = den
+    return W, den
+
+
+def d_family(rs, n, und, fam):
+    """caller-supplied distance matrices (integers; symmetric for the undirected latticisers)"""
+    if fam == 'additive':            # row term + column term: every swap ties in plain distance D[a,b]+D[c,d] = D[a,d]+D[c,b]
+        r_ = rs.randint(0, 6, size=n).astype(float); c_ = r_ if und else rs.randint(0, 6, size=n).astype(float)
+        return r_[:, None] + c_[None, :]
+    if fam == 'constant':
+        return np.full((n, n), float(rs.randint(0, 4)))
+    if fam == 'ties':                # two values only
+        D = rs.randint(1, 3, size=(n, n)).astype(float)
+    elif fam == 'zeros':             # mostly zero
+        D = (rs.rand(n, n) < .3) * rs.randint(1, 6, size=(n, n)).astype(float)
+    else:                            # 'default-like': circular distance scaled
+        D = rc.default_D(n) * float(rs.randint(1, 4))
+    return sym(D) if und else D
+
+
+def big_graph(rs, n, und):
+    kind = str(rs.choice(['tree+', 'ring+', 'sparse']))
+    if kind == 'tree+':
+        A = rc.spanning_plus(rs, n, int(rs.randint(0, 4)), not und, 1)
+    elif kind == 'ring+':
+        A = ring(n, und)
+        for _c in range(int(rs.randint(1, 5))):
+            i, j = rs.randint(n, size=2)
+            if i != j:
+                A[i, j] = 1
+                if und:
+                    A[j, i] = 1
+    else:
+        A = rc.spanning_plus(rs, n, int(rs.randint(n // 2, 2 * n)), not und, 1)
+    return (np.asarray(A) != 0).astype(float), kind
+
+
+def round4_cases(rs, tier):
+    big = tier == 'thorough'
+    cases = []
+
+    def seed():
+        return int(rs.randint(2 ** 31))
+
+    WF = ['maxnorm', 'strong-weak', 'unit-interval', 'integer']
+    DF = ['additive', 'additive', 'constant', 'ties', 'zeros', 'default-like', None]      # additive twice: with exact ties in plain distance only the weights decide
+    # (b) weight family x D family, every latticiser; weight families for the other routines
+    for r in ROUTINES:
+        und = r in rc.UND
+        combos = [(w, d) for w in WF for d in (DF if r in rc.LAT else [None])]
+        for w, d in combos * ((3 if r in rc.LAT else 1) if not big else 8):
+            n = int(rs.randint(5, 10 if not big else 13))
+            A, kind = big_graph(rs, n, und)
+            if not rc.two_disjoint_edges(A, und):
+                continue
+            c = {'routine': r, 'itr': int(rs.choice([1, 1, 2])), 'seed': seed(), 'kind': 'wfam:' + w, 'Wkind': w}
+            if w == 'integer':
+                c['A'] = weights(rs, A, und, 9).tolist()
+            else:
+                W, den = weight_family(rs, A, und, w)
+                c['A'] = W.tolist(); c['den'] = den
+            if d is not None:
+                c['D'] = d_family(rs, n, und, d).tolist(); c['Dkind'] = d
+            if r == 'partial_und':
+                c['B'] = rand_graph(rs, n, .2, bool(rs.rand() < .5)).tolist(); c['itr'] = int(rs.randint(1, 5))
+            cases.append(c)
+    # (c) size axis: the same routines on larger networks (predicates always; Lean replay up to LEAN_NMAX nodes)
+    sizes = [12, 16, 17, 24, 32, 33, 40, 64, 65]
+    for r in ROUTINES:
+        und = r in rc.UND
+        for n in (list(rs.choice(sizes, 3, replace=False)) if not big else sizes * 2):
+            n = int(n)
+            A, kind = big_graph(rs, n, und)
+            c = {'routine': r, 'itr': 1, 'seed': seed(), 'kind': 'size:%d' % n, 't': 20.0}
+            w = str(rs.choice(WF))
+            if w == 'integer':
+                c['A'] = weights(rs, A, und, int(rs.choice([1, 9]))).tolist()
+            else:
+                W, den = weight_family(rs, A, und, w); c['A'] = W.tolist(); c['den'] = den
+            c['Wkind'] = w
+            if r in rc.LAT and rs.rand() < .5:
+                d = str(rs.choice([x for x in DF if x])); c['D'] = d_family(rs, n, und, d).tolist(); c['Dkind'] = d
+            if r == 'partial_und':
+                c['B'] = rand_graph(rs, n, .1, bool(rs.rand() < .5)).tolist(); c['itr'] = int(rs.randint(1, 6))
+            if n > LEAN_NMAX:
+                c['no_lean'] = True
+            cases.append(c)
+    # (a) malformed stream, every shape: dense block(s) + isolated node(s), sparse pieces, with and without self-loops, near-symmetric
+    for r in UND_CONN:
+        for _ in range(24 if not big else 200):
+            n = int(rs.choice([4, 5, 6, 7, 8, 10, 12, 16] if not big else [4, 5, 6, 7, 8, 10, 12, 16, 24, 33]))
+            shape = str(rs.choice(['dense+isolated', 'dense+isolated', 'two-dense', 'dense+sparse', 'isolated-many', 'near-symmetric', 'asym-dense']))
+            wmax = int(rs.choice([1, 9]))
+            den = None
+            if shape in ('near-symmetric', 'asym-dense'):
+                A = np.maximum(ring(n, True), rand_graph(rs, n, float(rs.choice([.3, .9])), False))
+                A = weights(rs, A, True, wmax)
+                ed = [(i, j) for i in range(n) for j in range(n) if A[i, j] != 0]
+                i, j = ed[int(rs.randint(len(ed)))]
+                A[i, j] += 1
+                if shape == 'near-symmetric':
+                    den = int(2 ** int(rs.choice([30, 40])))      # the two directions differ by 2^-30: allclose says symmetric, == does not
+                mal = 'asymmetric'
+            else:
+                k = 1 if shape != 'isolated-many' else int(rs.randint(2, max(3, n // 2)))
+                n1 = n - k if shape in ('dense+isolated', 'isolated-many') else int(rs.randint(2, n - 1))
+                A = np.zeros((n, n))
+                blk = np.ones((n1, n1)) - np.eye(n1)
+                for _m in range(int(rs.randint(0, max(1, n1 // 2)))):             # a few connections missing from the block
+                    i, j = rs.randint(n1, size=2)
+                    if i != j and blk[i].sum() > 1 and blk[j].sum() > 1:
+                        blk[i, j] = blk[j, i] = 0
+                A[:n1, :n1] = blk
+                if shape == 'two-dense' and n - n1 > 1:
+                    A[n1:, n1:] = np.ones((n - n1, n - n1)) - np.eye(n - n1)
+                elif shape == 'dense+sparse' and n - n1 > 1:
+                    A[n1:, n1:] = (rc.spanning_plus(rs, n - n1, 0, False, 1) != 0)
+                A = weights(rs, A, True, wmax)
+                if reaches_all(A.tolist(), False):
+                    continue
+                mal = 'disconnected'
+            loops = str(rs.choice(['none', 'some', 'all']))
+            if loops != 'none':
+                for v in (range(n) if loops == 'all' else rs.choice(n, int(rs.randint(1, n)), replace=False)):
+                    A[v, v] = int(rs.randint(1, wmax + 1))
+            p = rs.permutation(n); A = A[np.ix_(p, p)]
+            c = {'routine': r, 'A': A.tolist(), 'itr': 1, 'seed': seed(), 'malformed': mal, 'kind': 'malformed:' + shape + ('+loops' if loops != 'none' else '')}
+            if den:
+                c['den'] = den
+            cases.append(c)
     return cases
 
 
@@ -483,7 +641,12 @@ def main():
                        'partial_und: calls that hit the 1.5 s watchdog (its rejection loop cannot terminate when no swap is admissible) are counted as '
                        'timeouts unless the input can never run out of admissible swaps (one exists and the mask covers no cell of the network): then, and for every other '
                        'routine, the call is re-tried with ten times the budget and a second timeout is the violation does-not-return']
+    # T-gen: number_of_components / get_components (the connectedness pre-check of the undirected _connected routines) re-extracted from /repo's current source
+    ck.cov['cores'] = cores.generate(families=['comp'])
+    for p_ in ck.cov['cores']['problems']:
+        ck.corr_break('core extractor (translate/cores.py)', p_)
     ok = ck.lean_gate(['BctVerif.Props.C11'], extra_modules=['BctVerif.Model.Rewire', 'BctVerif.Model.RewirePre'])
+    ck.lean_gate([], gen_modules=['BctVerif.Gen.CoresComp'])
     if ck.tier == 'thorough' and ok:
         ck.leanchecker(['BctVerif.Props.C11', 'BctVerif.Model.Rewire', 'BctVerif.Model.RewirePre'])
     if ck.replay:
@@ -515,6 +678,8 @@ def main():
             ck.count('kind:' + c['kind'])
         if c.get('Dkind'):
             ck.count('D:' + c['Dkind'])
+        if c.get('Wkind'):
+            ck.count('W:' + c['Wkind'])
         if c.get('dtype') or c.get('order'):
             ck.count('storage:' + (c.get('dtype') or 'order-' + c['order']))
         if c.get('Bkind'):
@@ -565,7 +730,10 @@ def main():
                 ck.corr_break('two Python oracles disagree', {'case': c, 'info': info})
             else:
                 ck.violation(rt, pred, {'case': c, 'output': r.get('R'), 'Rrp': r.get('Rrp'), 'eff': r.get('eff'), 'info': info}, cond_of(c))
-        lines.append(rc.lean_line(c, r)); idx.append(n_)
+        if c.get('no_lean'):
+            ck.count('lean-replay-skipped(n>%d)' % LEAN_NMAX)
+        else:
+            lines.append(rc.lean_line(c, r)); idx.append(n_)
     # correspondence: the Lean model (about which Props/C11.lean proves the clauses) replays the recorded draws.
     # The two undirected _connected routines (well-formed and malformed input) go through Main/RewirePre
     # (pre-check, then the same Rewire.step); everything else through Main/Rewire.
